@@ -214,7 +214,7 @@ def plan(tier, seed):
     for i in range(4):
         tasks.append(("race", {"shard": i, "n": 40 if quick else 1500}))
     for i in range(8):
-        tasks.append(("closerace", {"shard": i, "n": 60 if quick else 2500}))
+        tasks.append(("closerace", {"shard": i, "n": 120 if quick else 2500}))
     return tasks
 
 
